@@ -135,4 +135,44 @@ def toResSplice : Field (Except Nat (Nat × Nat)) → Af.Res (Nat × Nat)
   | .present (.error n) => .error (.spliceTimestampError (.markerBitNotSet n))
   | .present (.ok v) => .ok v
 
+/-! ## Readings chosen where the code and the standard differ, and closed-form positions (review C)
+
+### `splice_countdown` is `8 tcimsbf` in the standard, `u8` in the code
+
+ISO/IEC 13818-1 2.4.3.4 declares `splice_countdown` as `8 tcimsbf` (two's complement integer, msb
+= sign bit first): `0xFF` means −1 (one packet *after* the splicing point).  The crate returns the
+raw byte as `u8` (`packet.rs:241`, 255 for `0xFF`); `specAf` above follows the crate and reads
+`readBits b 0 8` (unsigned).  The reading chosen here: the API value is the *unsigned byte*; the
+standard's value is `spliceSigned` of it (`Ts.Props.C13.splice_countdown_signed_reading`). -/
+
+/-- `tcimsbf`: the `n`-bit two's complement integer at bit offset `off` (`n ≥ 1`): the first bit has
+weight `−2^(n−1)`, the remaining `n−1` bits are `uimsbf` -/
+def readSigned (bs : Bytes) (off n : Nat) : Int :=
+  (readBits bs (off + 1) (n - 1) : Int) - (readBits bs off 1 : Int) * 2 ^ (n - 1)
+
+/-- the standard's (signed) `splice_countdown` as a function of the unsigned byte the API returns -/
+def spliceSigned (b : Nat) : Int := if b < 128 then (b : Int) else (b : Int) - 256
+
+/-! ### closed-form positions of the optional elements
+
+The byte position at which each optional element starts, written directly from the flag bits (the
+sequential parser `specAf` threads the same positions through its cursor; equality is
+`Ts.Lemmas.RevC.cur*_pos`).  PCR always starts at byte 1. -/
+
+/-- start of OPCR: after the flags byte and the 6 PCR bytes if PCR_flag -/
+def posOpcr (buf : Bytes) : Nat := 1 + (if readBits buf 3 1 = 1 then 6 else 0)
+/-- start of splice_countdown: after OPCR's 6 bytes if OPCR_flag -/
+def posSplice (buf : Bytes) : Nat := posOpcr buf + (if readBits buf 4 1 = 1 then 6 else 0)
+/-- start of transport_private_data_length: after splice_countdown's byte if splicing_point_flag -/
+def posPriv (buf : Bytes) : Nat := posSplice buf + (if readBits buf 5 1 = 1 then 1 else 0)
+/-- start of adaptation_field_extension_length: after the private data (length byte + that many
+bytes) if transport_private_data_flag.  (A length byte beyond the end of `buf` reads as 0.) -/
+def posExt (buf : Bytes) : Nat :=
+  posPriv buf + (if readBits buf 6 1 = 1 then 1 + readBits buf (8 * posPriv buf) 8 else 0)
+
+/-- start of piecewise_rate inside the extension: after the flags byte and ltw's 2 bytes if ltw_flag -/
+def posPiecewise (e : Bytes) : Nat := 1 + (if readBits e 0 1 = 1 then 2 else 0)
+/-- start of the seamless-splice element: after piecewise_rate's 3 bytes if piecewise_rate_flag -/
+def posSeamless (e : Bytes) : Nat := posPiecewise e + (if readBits e 1 1 = 1 then 3 else 0)
+
 end Ts.Spec.AfSpec
